@@ -978,4 +978,246 @@ theorem readT_path_text (inner : CallInfo) (fs : Array Frame) (errText : Nat →
       rw [readT_joinLines inner _ (by simp [setHead_ne_nil _ hne]), List.foldl_append,
         read_marked_pathLines inner fs width d (by omega) hfs R prev s hne]
 
+
+/-! ### clause 6: the `+ Spec:` lines of a text are the lines of its rendered rows that have branches -/
+
+/-- the `+ Spec:` texts of a text -/
+def PLT (T : Str) : List Str := linesMap plusSpec T
+
+theorem plusSpec_nil : plusSpec [] = none := by simp [plusSpec, gutter]
+
+theorem gutter_tick_mark (d : Nat) (x : Str) : (gutter (indentOf d ++ tickOf d ++ x)).2 ≠ some '+' := by
+  cases d with
+  | zero => simp [indentOf, tickOf, gutter, List.takeWhile]
+  | succ d =>
+    have h1 : indentOf (d + 1) ++ tickOf (d + 1) ++ x = ' ' :: (List.replicate (d + 2) '|' ++ ' ' :: x) := by
+      simp [indentOf, tickOf, List.replicate_succ']
+    rw [h1]
+    simp only [gutter, takeWhile_bars (d + 2) ' ' x (by decide), List.length_replicate, drop_bars]
+    simp
+
+/-- a mark written over a line nested at depth ≥ `d`: the line reads as depth `d` with that mark -/
+theorem DeepAt_remark_gutter {d : Nat} {l : Str} (m : Char) (h : DeepAt d l) (hm : m = '\\' ∨ m = 'X') :
+    (gutter (remark d l m)).2 = some m := by
+  obtain ⟨c, x, rfl, _⟩ := h
+  have hA : (' ' :: List.replicate d '|').length = d + 1 := by simp
+  have hl : ' ' :: (List.replicate d '|' ++ c :: x) = (' ' :: List.replicate d '|') ++ c :: x := by simp
+  have hr : remark d (' ' :: (List.replicate d '|' ++ c :: x)) m = ' ' :: (List.replicate d '|' ++ m :: x) := by
+    unfold remark
+    rw [hl, List.take_left' hA]
+    have : ((' ' :: List.replicate d '|') ++ c :: x).drop (d + 2) = x := by
+      have h2 : ((' ' :: List.replicate d '|') ++ [c]).length = d + 2 := by simp
+      rw [show (' ' :: List.replicate d '|') ++ c :: x = ((' ' :: List.replicate d '|') ++ [c]) ++ x by simp,
+        List.drop_left' h2]
+    rw [this]
+    simp
+  rw [hr]
+  have hmb : m ≠ '|' := by rcases hm with rfl | rfl <;> decide
+  simp only [gutter, takeWhile_bars d m x hmb, List.length_replicate, drop_bars]
+  rcases hm with rfl | rfl <;> simp
+
+theorem PLT_joinLines (segs : List Str) : PLT (joinLines segs) = segs.flatMap PLT :=
+  linesMap_joinLines plusSpec plusSpec_nil segs
+
+/-- a mark on the first line of a piece of a branch text can only remove a `+ Spec:` line -/
+theorem PLT_remark_subset (d : Nat) (m : Char) (s : Str) (hg : GPre (d + 3) s) (h : BranchText d s)
+    (hm : m = '\\' ∨ m = 'X') : ∀ shown, shown ∈ PLT (remark d s m) → shown ∈ PLT s := by
+  obtain ⟨g, x, rfl, hgut, hlen⟩ := hg
+  have hmg : isGutterChar m = true := by rcases hm with rfl | rfl <;> decide
+  obtain ⟨⟨hd0, tl0, hsp0, hdeep⟩, _⟩ := h
+  cases hs : splitLines x with
+  | nil => exact absurd hs (splitLines_ne_nil x)
+  | cons hd' tl =>
+    have hg' := Gut_remark d g m hgut hmg
+    have hold := splitLines_prefix g x hd' tl (Gut_NoNL hgut) hs
+    rw [hold] at hsp0
+    simp only [List.cons.injEq] at hsp0
+    obtain ⟨rfl, rfl⟩ := hsp0
+    have hnew : splitLines (remark d (g ++ x) m) = remark d (g ++ hd') m :: tl := by
+      rw [remark_prefix d g x m (by omega), remark_prefix d g hd' m (by omega)]
+      exact splitLines_prefix _ x hd' tl (Gut_NoNL hg') hs
+    intro shown hsh
+    unfold PLT linesMap at hsh ⊢
+    rw [hnew] at hsh
+    rw [hold]
+    have hnone : plusSpec (remark d (g ++ hd') m) = none := by
+      unfold plusSpec
+      rw [DeepAt_remark_gutter m hdeep hm]
+      rcases hm with rfl | rfl <;> simp
+    simp only [List.filterMap_cons, hnone] at hsh
+    simp only [List.filterMap_cons]
+    split
+    · exact hsh
+    · exact List.mem_cons_of_mem _ hsh
+
+theorem PLT_targetLine (d w : Nat) (f : Frame) (h : NoNL f.target) :
+    PLT (traceLine d w "Target".toList (tickOf d) f.target f.tlen) = [] := by
+  unfold PLT linesMap
+  rw [splitLines_noNL _ (NoNL_targetLine d w f h), traceLine_target]
+  simp only [List.filterMap_cons, List.filterMap_nil, plusSpec]
+  rw [afterLabel_gutter _ _ _ (Gut_append (Gut_indentOf d) (Gut_tickOf d)), afterLabel_spec_target]
+  simp
+
+theorem PLT_specLine_tick (d w : Nat) (f : Frame) (h : NoNL f.spec) :
+    PLT (traceLine d w "Spec".toList (tickOf d) f.spec f.slen) = [] := by
+  unfold PLT linesMap
+  rw [splitLines_noNL _ (NoNL_specLine d w _ f (Or.inl rfl) h), traceLine_spec d w _ f (tickOf_length d)]
+  simp only [List.filterMap_cons, List.filterMap_nil, plusSpec]
+  have := gutter_tick_mark d ("Spec".toList ++ ": ".toList ++ specShown w f d)
+  rw [beq_eq_false_iff_ne.mpr this]
+  simp
+
+theorem PLT_specLine_plus (d w : Nat) (f : Frame) (h : NoNL f.spec) :
+    ∀ shown, shown ∈ PLT (traceLine d w "Spec".toList "+ ".toList f.spec f.slen) → shown = specShown w f d := by
+  intro shown hsh
+  unfold PLT linesMap at hsh
+  rw [splitLines_noNL _ (NoNL_specLine d w _ f (Or.inr rfl) h), traceLine_spec d w _ f rfl] at hsh
+  simp only [List.filterMap_cons, List.filterMap_nil, plusSpec] at hsh
+  rw [afterLabel_gutter _ _ _ (Gut_append (Gut_indentOf d) Gut_plus), afterLabel_spec_self] at hsh
+  by_cases hg : ((gutter (indentOf d ++ "+ ".toList ++ ("Spec".toList ++ ": ".toList ++ specShown w f d))).2 == some '+') = true
+  · rw [if_pos hg] at hsh; simpa using hsh
+  · rw [if_neg hg] at hsh; simp at hsh
+
+theorem PLT_err (d : Nat) (e : Str) (he : ∀ l, l ∈ splitLines e → afterLabel "Spec".toList l = none) :
+    PLT (indentOf d ++ tickOf d ++ e) = [] := by
+  unfold PLT linesMap
+  apply List.filterMap_eq_nil_iff.mpr
+  intro l hl
+  have hall : afterLabel "Spec".toList l = none := by
+    cases hs : splitLines e with
+    | nil => exact absurd hs (splitLines_ne_nil e)
+    | cons hd' tl =>
+      rw [splitLines_prefix _ e hd' tl (Gut_NoNL (Gut_append (Gut_indentOf d) (Gut_tickOf d))) hs] at hl
+      rcases List.mem_cons.mp hl with hl | hl
+      · subst hl
+        rw [afterLabel_gutter _ _ _ (Gut_append (Gut_indentOf d) (Gut_tickOf d))]
+        exact he hd' (by rw [hs]; simp)
+      · exact he l (by rw [hs]; exact List.mem_cons_of_mem _ hl)
+  unfold plusSpec
+  rw [hall]; simp
+
+theorem allSegs_PLT_mem (fs : Array Frame) (errText : Nat → Str) (rootError width depth : Nat) (lb : Bool)
+    (recur : Nat → Option Nat → Bool → Str) (hfs : FramesOneLine fs) (herr : ErrLabelFree errText) :
+    ∀ (rows : List Row) (prev : Option Nat) (seg shown : Str),
+    seg ∈ allSegs fs errText rootError width depth lb recur rows prev → shown ∈ PLT seg →
+    ∃ r, r ∈ rows ∧ ((r.branches ≠ [] ∧ ∃ f, fs[r.frame]? = some f ∧ shown = specShown width f depth) ∨
+      (∃ b, b ∈ r.branches ∧ ∃ p l, shown ∈ PLT (recur b p l)))
+  | [], _, seg, _, hs, _ => by simp [allSegs] at hs
+  | r :: rest, prev, seg, shown, hs, hsh => by
+    have ih := allSegs_PLT_mem fs errText rootError width depth lb recur hfs herr rest
+    have lift : (∃ r', r' ∈ rest ∧ ((r'.branches ≠ [] ∧ ∃ f, fs[r'.frame]? = some f ∧ shown = specShown width f depth) ∨
+        (∃ b, b ∈ r'.branches ∧ ∃ p l, shown ∈ PLT (recur b p l)))) →
+        ∃ r', r' ∈ r :: rest ∧ ((r'.branches ≠ [] ∧ ∃ f, fs[r'.frame]? = some f ∧ shown = specShown width f depth) ∨
+        (∃ b, b ∈ r'.branches ∧ ∃ p l, shown ∈ PLT (recur b p l))) :=
+      fun ⟨r', h1, h2⟩ => ⟨r', List.mem_cons_of_mem _ h1, h2⟩
+    simp only [allSegs] at hs
+    cases hf : fs[r.frame]? with
+    | none => rw [hf] at hs; exact lift (ih prev seg shown hs hsh)
+    | some f =>
+      rw [hf] at hs
+      obtain ⟨hns, hnt⟩ := hfs _ f hf
+      rcases List.mem_append.mp hs with h | h
+      · refine ⟨r, by simp, ?_⟩
+        simp only [rowSegs, List.mem_append] at h
+        rcases h with (h | h) | h
+        · exfalso
+          split at h
+          · simp only [List.mem_singleton] at h; subst h
+            rw [PLT_targetLine depth width f hnt] at hsh; simp at hsh
+          · simp at h
+        · cases hb : r.branches.reverse with
+          | nil =>
+            exfalso
+            rw [hb] at h
+            simp only [List.mem_singleton] at h; subst h
+            rw [PLT_specLine_tick depth width f hns] at hsh; simp at hsh
+          | cons lastB revInit =>
+            rw [hb] at h
+            have hbs := branches_of_reverse hb
+            have hbne : r.branches ≠ [] := by rw [hbs]; simp
+            simp only [List.mem_append, List.mem_singleton, List.mem_map] at h
+            rcases h with (h | ⟨b, hb', h⟩) | h
+            · subst h
+              exact Or.inl ⟨hbne, f, hf, PLT_specLine_plus depth width f hns shown hsh⟩
+            · subst h; exact Or.inr ⟨b, by rw [hbs]; simp [hb'], _, _, hsh⟩
+            · subst h; exact Or.inr ⟨lastB, by rw [hbs]; simp, _, _, hsh⟩
+        · exfalso
+          cases he : r.error with
+          | none => rw [he] at h; exact absurd h (by simp)
+          | some e =>
+            rw [he] at h
+            by_cases hne : (e != rootError) = true
+            · simp only [hne, if_true, List.mem_singleton] at h; subst h
+              rw [PLT_err depth _ (herr e)] at hsh; simp at hsh
+            · simp [hne] at h
+      · exact lift (ih (some f.tid) seg shown h hsh)
+
+/-- **every `+ Spec:` line of a text is the line of a rendered row that has branches** -/
+theorem PLT_mem_shown (fs : Array Frame) (errText : Nat → Str) (rootError width : Nat)
+    (hfs : FramesOneLine fs) (herr : ErrQuiet errText) :
+    ∀ (fuel h d : Nat) (prev : Option Nat) (lb : Bool), Renderable fs fuel h →
+      ∀ shown, shown ∈ PLT (formatTrace fs errText rootError width fuel h d prev lb) →
+      ∃ p, p ∈ shownRows fs fuel h d ∧ p.2.branches ≠ [] ∧ ∃ f, fs[p.2.frame]? = some f ∧ shown = specShown width f p.1
+  | 0, _, _, _, _, hr, _, _ => by simp [Renderable] at hr
+  | fuel + 1, h, d, prev, lb, hr, shown, hsh => by
+    obtain ⟨hne, hrows⟩ := hr
+    -- the piece the line is in, without its mark
+    have hseg : ∃ seg, seg ∈ allSegs fs errText rootError width d lb
+        (fun b p l => formatTrace fs errText rootError width fuel b (d + 1) p l) (unpack fs h) prev ∧ shown ∈ PLT seg := by
+      rw [formatTrace_succ] at hsh
+      simp only [] at hsh
+      have hgp : ∀ s, s ∈ allSegs fs errText rootError width d lb
+          (fun b p l => formatTrace fs errText rootError width fuel b (d + 1) p l) (unpack fs h) prev → GPre (d + 3) s := by
+        apply allSegs_GPre
+        intro r hr b hb p l
+        exact GPre_mono (by omega) (formatTrace_GPre fs errText rootError width fuel b (d + 1) p l ((hrows r hr).2 b hb))
+      by_cases hd0 : d = 0
+      · subst hd0
+        simp only [beq_self_eq_true, if_true] at hsh
+        rw [PLT_joinLines] at hsh
+        obtain ⟨seg, h1, h2⟩ := List.mem_flatMap.mp hsh
+        exact ⟨seg, h1, h2⟩
+      · have hdb : (d == 0) = false := by simp [hd0]
+        simp only [hdb, Bool.false_eq_true, if_false] at hsh
+        have hbt := allSegs_BranchText fs errText rootError width d lb
+          (fun b p l => formatTrace fs errText rootError width fuel b (d + 1) p l) (by omega) hfs herr (unpack fs h) prev
+          (fun r hr b hb p l => BranchText_mono
+            (branch_text fs errText rootError width hfs herr fuel b (d + 1) p l ((hrows r hr).2 b hb) (by omega)))
+        -- through `setHead` / `setLast`
+        have hhead : ∀ s1, s1 ∈ setHead (allSegs fs errText rootError width d lb
+            (fun b p l => formatTrace fs errText rootError width fuel b (d + 1) p l) (unpack fs h) prev)
+            (fun s => remark d s '\\') → shown ∈ PLT s1 →
+            ∃ seg, seg ∈ allSegs fs errText rootError width d lb
+              (fun b p l => formatTrace fs errText rootError width fuel b (d + 1) p l) (unpack fs h) prev ∧ shown ∈ PLT seg := by
+          intro s1 hs1 hin
+          rcases mem_setHead _ _ hs1 with h' | ⟨s0, h0, rfl⟩
+          · exact ⟨s1, h', hin⟩
+          · exact ⟨s0, h0, PLT_remark_subset d '\\' s0 (hgp s0 h0) (hbt s0 h0) (Or.inl rfl) shown hin⟩
+        split at hsh
+        · rw [PLT_joinLines] at hsh
+          obtain ⟨s2, h1, h2⟩ := List.mem_flatMap.mp hsh
+          rcases mem_setLast _ _ h1 with h' | ⟨s1, h1', rfl⟩
+          · exact hhead s2 h' h2
+          · -- the `X` mark on a piece that may already carry the `\` mark
+            rcases mem_setHead _ _ h1' with h'' | ⟨s0, h0, rfl⟩
+            · exact ⟨s1, h'', PLT_remark_subset d 'X' s1 (hgp s1 h'') (hbt s1 h'') (Or.inr rfl) shown h2⟩
+            · have hg1 := GPre_remark d '\\' (hgp s0 h0) (by omega) (by decide)
+              have hb1 := BranchText_remark d '\\' s0 (hgp s0 h0) (hbt s0 h0) (Or.inl rfl)
+              have := PLT_remark_subset d 'X' _ hg1 hb1 (Or.inr rfl) shown h2
+              exact ⟨s0, h0, PLT_remark_subset d '\\' s0 (hgp s0 h0) (hbt s0 h0) (Or.inl rfl) shown this⟩
+        · rw [PLT_joinLines] at hsh
+          obtain ⟨s1, h1, h2⟩ := List.mem_flatMap.mp hsh
+          exact hhead s1 h1 h2
+    obtain ⟨seg, hsegm, hshseg⟩ := hseg
+    obtain ⟨r, hrm, hcase⟩ := allSegs_PLT_mem fs errText rootError width d lb _ hfs herr.labelFree _ _ seg shown hsegm hshseg
+    rcases hcase with ⟨hbne, f, hf, heq⟩ | ⟨b, hb, p, l, hin⟩
+    · refine ⟨(d, r), ?_, hbne, f, hf, heq⟩
+      rw [shownRows_succ]
+      exact List.mem_flatMap.mpr ⟨r, hrm, by simp⟩
+    · obtain ⟨q, hq, hqb, f, hf, heq⟩ := PLT_mem_shown fs errText rootError width hfs herr fuel b (d + 1) p l
+        ((hrows r hrm).2 b hb) shown hin
+      refine ⟨q, ?_, hqb, f, hf, heq⟩
+      rw [shownRows_succ]
+      exact List.mem_flatMap.mpr ⟨r, hrm, List.mem_cons_of_mem _ (List.mem_flatMap.mpr ⟨b, hb, hq⟩)⟩
+
 end Glom.C05
